@@ -93,15 +93,15 @@ Section Auth.
 
   (** ** the middleware *)
   Definition tok_principal (id : N) (a : auth C) : principal :=
-    {| p_kind := 1; p_user := a_user C a; p_ident := id;
-       p_perm := if a_active C a then Some (a_nperm C a) else None |}.
+    {| p_kind := 1; p_user := a_user C a; p_ident := id; p_perm := Some (a_nperm C a) |}.
   Definition sess_principal (id : N) (s : sess C) : principal :=
     {| p_kind := 2; p_user := s_user C s; p_ident := id; p_perm := Some 0%N |}.
 
   (** the exact condition under which the wrapped handler is reached, and with which principal *)
   Definition auth_spec (st : state C) (h : header C) (ck : option Str) (p : principal) : Prop :=
     aget N.eqb (p_user p) (users C (ps C st)) = Some true /\
-    ((exists t id a, h = HTok C t false /\ find_token C (ts C st) t = Some (id, a) /\ p = tok_principal id a) \/
+    ((exists t id a, h = HTok C t false /\ find_token C (ts C st) t = Some (id, a) /\ a_active C a = true /\
+                     p = tok_principal id a) \/
      ((forall t j, h <> HTok C t j) /\
       exists k id s, ck = Some k /\ find_by_key C (ss C st) k = Some (id, s) /\ p = sess_principal id s)).
 
@@ -129,12 +129,13 @@ Section Auth.
            inversion H; subst; (split; [exact EU | right; split; [intros; discriminate | exists k, id, s; auto]]). }
       destruct jwt; [discriminate|].
       destruct (find_token C (ts C st) t) as [[id a]|] eqn:EF; [|discriminate].
+      destruct (a_active C a) eqn:EA; [|discriminate].
       simpl in H.
       match type of H with context [aget N.eqb ?u ?l] => destruct (aget N.eqb u l) as [[|]|] eqn:EU end;
         try discriminate.
       inversion H; subst. split; [exact EU | left; exists t, id, a; auto].
-    - intros [EU [[t [id [a [-> [EF ->]]]]] | [NT [k [id [s [-> [EF ->]]]]]]]].
-      + unfold authenticate. rewrite EF. simpl in *. rewrite EU. eexists; reflexivity.
+    - intros [EU [[t [id [a [-> [EF [EA ->]]]]]] | [NT [k [id [s [-> [EF ->]]]]]]]].
+      + unfold authenticate. rewrite EF, EA. simpl in *. rewrite EU. eexists; reflexivity.
       + unfold authenticate.
         destruct (refresh_found _ k id s (now C (ss C st) + RenewSessionTime) EF) as [x ER].
         destruct h as [| |t jwt]; [| |exfalso; eapply NT; reflexivity];
@@ -163,6 +164,7 @@ Section Auth.
          inversion H; reflexivity. }
     destruct jwt; [discriminate|].
     destruct (find_token C (ts C st) t) as [[id a]|]; [|discriminate].
+    destruct (a_active C a); [|discriminate].
     simpl in H.
     match type of H with context [aget N.eqb ?u ?l] => destruct (aget N.eqb u l) as [[|]|] end;
       inversion H; reflexivity.
@@ -190,17 +192,17 @@ Section Auth.
     ((* a token that exists, whose stored form verifies exactly the presented token *)
      (exists t id a, h = HTok C t false /\ p_kind p = 1%N /\ p_ident p = id /\ p_user p = a_user C a /\
                      aget N.eqb id (recs C (ts C st)) = Some a /\ verifies (ts C st) a t /\
-                     (* and whose permissions are usable only if it is active *)
-                     (a_active C a = false -> p_perm p = None)) \/
+                     (* and which is active *)
+                     a_active C a = true) \/
      (* or a stored, unexpired session *)
      (exists k id s e1 e2, ck = Some k /\ p_kind p = 2%N /\ p_ident p = id /\ p_user p = s_user C s /\
                      aget (str_eqb C) k (sidx C (ss C st)) = Some (id, e1) /\ (now C (ss C st) < e1)%Z /\
                      aget N.eqb id (sdat C (ss C st)) = Some (s, e2) /\ (now C (ss C st) < e2)%Z)).
   Proof.
     intro H. assert (exists x, authenticate C st h ck renew = (200%N, Some p, x)) as HX by eauto.
-    apply authenticated_iff in HX as [EU [[t [id [a [-> [EF ->]]]]] | [NT [k [id [s [-> [EF ->]]]]]]]].
+    apply authenticated_iff in HX as [EU [[t [id [a [-> [EF [EA ->]]]]]] | [NT [k [id [s [-> [EF ->]]]]]]]].
     - split; [exact EU|]. left. apply find_token_sound in EF as [ER EV].
-      exists t, id, a. simpl. repeat split; auto. intros ->. reflexivity.
+      exists t, id, a. simpl. repeat split; auto.
     - split; [exact EU|]. right. apply find_by_key_sound in EF as [e1 [e2 [A [B [D E]]]]].
       exists k, id, s, e1, e2. simpl. repeat split; auto.
   Qed.
@@ -271,14 +273,18 @@ Section Auth.
   Qed.
 End Auth.
 
-(** * The full statement is refuted by the mirror: an INACTIVE token of an active user passes
-      the middleware (the wrapped handler is reached with the token's user as principal). *)
+(** * The former counterexample (found by this check, repaired in /repo): an INACTIVE token of
+      an active user is now refused by the middleware with 401; reactivated, it works again. *)
 Definition witness_ops : list (op sym) :=
   [OP sym (CreateUser sym);
    OT sym (CreateAuth sym 0 (SPlain 0 5 0) SEmpty true 3);
+   Probe sym (HTok sym (SPlain 0 5 0) false) None false;
    OT sym (SetAuthActive sym 0 false);
+   Probe sym (HTok sym (SPlain 0 5 0) false) None false;
+   OT sym (SetAuthActive sym 0 true);
    Probe sym (HTok sym (SPlain 0 5 0) false) None false].
 
-Lemma inactive_token_authenticates :
-  trace sym (init sym false true V256) witness_ops = [[0]; [0]; [0]; [200; 1; 0; 0; 0]]%N.
+Lemma inactive_token_refused :
+  trace sym (init sym false true V256) witness_ops =
+    [[0]; [0]; [200; 1; 0; 0; 4]; [0]; [401]; [0]; [200; 1; 0; 0; 4]]%N.
 Proof. vm_compute. reflexivity. Qed.
